@@ -118,6 +118,11 @@ def c15b(prog, R):
                 "clear rewrites the latest history entry: snapshots taken before the clear lose their view", g.where())
         for u in ups:
             r.check(("VH", "write") in L.held_at(g, u.bb, must=True), "%s|under the version write guard" % name, "clear upgrades without the write guard", g.where(u.bb))
+            # a compaction in flight commits with_merge on whatever version is current: if that is the cleared one, its
+            # output tables (pre-clear data) re-enter the tree.  clear must exclude running compactions (finding F14)
+            r.check(("MC", "write") in L.held_at(g, u.bb, must=True), "%s|under the major-compaction write lock" % name,
+                    "clear publishes the empty version while a compaction may be running: the compaction's output tables are installed "
+                    "into the cleared version afterwards and every cleared key is back", g.where(u.bb))
             for cb in prog.callbacks(u):
                 cf = prog.fns.get(cb)
                 if cf is None:
